@@ -187,7 +187,7 @@ func minimalTx(i, salt int) *wire.MsgTx {
 }
 
 func evalC11(c c11Case, o *Obs) error {
-	if c.N < 1 || c.N > 20000 {
+	if c.N < 1 || c.N > 520000 {
 		return hbug("bad n")
 	}
 	blk := wire.NewMsgBlock(&wire.BlockHeader{Version: 2, Nonce: uint32(c.Salt), Bits: 0x1d00ffff})
@@ -608,6 +608,15 @@ func TestC11(t *testing.T) {
 					}
 				}
 			}
+		}
+		// every run also sees blocks far larger than the random sizes (tree depth 15..19, counts past 2^14 and 2^16)
+		{
+			ns := []int{16667, 20001, 40000, 65537}
+			if tier == "thorough" {
+				ns = []int{16667, 20001, 40000, 65537, 131073, 300000, 500000, 65536, 32769, 100003, 16385, 262145, 200000, 77777, 50001, 16666}
+			}
+			n := ns[shard%len(ns)]
+			kC11.One(ev, c11Case{N: n, Mode: "txnset", Subset: []int{0, 1, n / 3, n - 2, n - 1}, Salt: seedEnv % 1000})
 		}
 		kC11.Run(t, ev, perShard(pick(1500, 600000)))
 		kC11Dag.Run(t, ev, perShard(pick(6000, 600000)))
